@@ -893,7 +893,10 @@ class DFA:
         # transitions going into the sub_states, instead of on transitions coming out of them that we generate. This adds more opportunities
         # for "unable to schedule strict"-type errors, but avoids missing actions in these cases.
         if chain_actions and chained_dfa.starting_state in chained_dfa.accepting_states:
-            self.chain_actions_into(chain_actions, sub_states)
+            self.chain_actions_into(chain_actions, [x for x in sub_states if x is not self.starting_state])
+            if self.starting_state in sub_states:
+                # (nothing points at the starting state yet: see chain_actions_at_end)
+                sub_states = [x for x in sub_states if x is not self.starting_state] + [self.append_action_step(chain_actions, [self.starting_state])]
             chain_actions = [] # Since the actions are already handled, don't try to add them to new transitions.
 
         # Check for ambiguity: if any transitions added to a sub_state try to redirect a valid character a different valid
@@ -1024,8 +1027,34 @@ class DFA:
                     else:
                         trans.attach(action)
 
+    def append_action_step(self, actions: Iterable["Action"], sub_states=None):
+        """
+        Give the actions a step of their own behind the `sub_states` (or if unspecified, the accept states): a fallthrough taken on whatever
+        those states do not continue with themselves. Returns the state the machine is in once they have been performed.
+        """
+
+        step = DFA()
+        entry, performed = DFState(), DFState()
+        step.add(entry)
+        step.add(performed)
+        step.mark_accepting(performed)
+        # (joined like an error path, so that it only takes what a state does not handle validly itself; once in place it is an ordinary step)
+        entry.transition(DFTransition([DFTransition.Else], fallthrough=True).to(performed).attach(*actions).handles_else())
+        sub_states = list(self.accepting_states if sub_states is None else sub_states)
+        self.append_after(step, sub_states=sub_states)
+        for sub_state in sub_states:
+            for transition in sub_state.transitions:
+                if transition.target is performed:
+                    transition.handles_else(False)
+        return performed
+
     def chain_actions_at_end(self, actions: Iterable["Action"]):
-        self.chain_actions_into(actions, self.accepting_states)
+        actions = list(actions)
+        self.chain_actions_into(actions, [x for x in self.accepting_states if x is not self.starting_state])
+        if actions and self.starting_state in self.accepting_states:
+            # Nothing points at the starting state yet -- whatever comes before this machine will -- so the path that ends right where it
+            # starts (a skipped optional) has no transition to put them on: they are performed when the next byte shows which path it was.
+            self.append_action_step(actions, [self.starting_state])
 
 # =============
 # DEBUG STORAGE
